@@ -257,6 +257,8 @@ def run_shard(desc, acc):
                     knobs = set()
                 else:
                     knobs = {k for k in ks if r.random() < 0.35}
+                if any(t.startswith("ctc:chain") for t in tags) and fmt in ("fide", "glencoe") and r.random() < 0.8:
+                    knobs = set(knobs) | {"nary"}     # long chains are what other tools write as ONE n-ary rule
                 if "no-constraints" in knobs:
                     spec["ctcs"] = []
                 text, exp = EMIT[fmt](spec, r, knobs)
